@@ -23,7 +23,8 @@ func init() {
 			runC11Pool(c, "C11")
 			runPoolReleaseLast(c, "C11-POOL")
 			runLock(c, "C11-LRU")
-			base(c, "ALIAS")
+			runGlobalMapAlias(c, "C11-GLOBAL")
+			base(c, "ALIAS", "LRU")
 			importRules(c, "C08", runC08, "C11-CACHE", "entries of the shared type cache are complete when published and never written afterwards (rules C08-PUBLISH, C08-COPY): concurrent validations of one type read the same immutable entry", 2, ruleIn("C08-PUBLISH", "C08-COPY"))
 		},
 	})
@@ -41,6 +42,8 @@ func init() {
 			runC12Cache(c)
 			runC12Unsafe(c)
 			runC12Input(c)
+			runC12InterfaceAlias(c, "C12-INPUT")
+			runGlobalMapAlias(c, "C12-GLOBAL")
 			runC12Memo(c)
 			runC12ParamWrite(c)
 		},
@@ -597,6 +600,43 @@ func runC11Pool(c *Ctx, prop string) {
 // use by construction.) This covers the pooled builders as well as the pooled validators.
 func runPoolReleaseLast(c *Ctx, rule string) {
 	p := c.P
+	// inside a releaser: Put is the last thing done with the object
+	for _, pi := range findPools(p) {
+		for _, put := range pi.Puts {
+			args := put.Common().Args
+			if len(args) == 0 {
+				continue
+			}
+			obj := args[len(args)-1]
+			if mi, ok := obj.(*ssa.MakeInterface); ok {
+				obj = mi.X
+			}
+			pb := put.Block()
+			idx := -1
+			for i, ins := range pb.Instrs {
+				if ins == ssa.Instruction(put) {
+					idx = i
+				}
+			}
+			if idx < 0 {
+				continue
+			}
+			c.Sites++
+			var used []string
+			for _, later := range instrsReachableAfter(pb, idx) {
+				if later == ssa.Instruction(put) {
+					continue
+				}
+				for _, op := range later.Operands(nil) {
+					if op != nil && *op == obj {
+						used = append(used, p.Pos(instrPos(later)))
+					}
+				}
+			}
+			c.Check(len(used) == 0, rule, fnName(put.Parent()), "put-last", put.Pos(), "the object is not touched after Put",
+				"the object is still read or written at "+uniqJoin(used, 3)+" after it was put back into the pool: the next Get (possibly in another goroutine) owns it by then, and these writes wipe what that call has just set up")
+		}
+	}
 	for _, pi := range findPools(p) {
 		rel := map[*ssa.Function]bool{}
 		for _, put := range pi.Puts {
